@@ -45,6 +45,7 @@ structure Keeps (s s' : State) : Prop where
   ow : s'.mostRecentOwner = s.mostRecentOwner
   rd : s'.mostRecentNameInRdata = s.mostRecentNameInRdata
   gp : s'.gPtrs = s.gPtrs
+  cstored : ∀ g, CStored s g → CStored s' g
 
 theorem ptrLog_keeps {s s' : State} (k : Keeps s s') (h : PtrLogOK s) : PtrLogOK s' := by
   intro x hx
@@ -73,7 +74,8 @@ theorem i_keeps {s s' : State} (h : I s) (k : Keeps s s') (hinv : Inv s') (ht : 
   have w := h.winv
   refine ⟨hinv, ⟨hinv.hdr, hinv.cur_av, Nat.le_trans hinv.av_lim hinv.lim_size, by rw [k.gl]; exact w.g12, ?_,
     by rw [k.qn]; exact anchorOK_keeps k w.qn, by rw [k.ow]; exact anchorOK_keeps k w.ow,
-    by rw [k.rd]; exact anchorOK_keeps k w.rd⟩, ⟨?_, ?_⟩, ht, ptrLog_keeps k h.log⟩
+    by rw [k.rd]; exact anchorOK_keeps k w.rd,
+    fun g hg => k.cstored g (w.clabs g (by rw [← k.gl]; exact hg))⟩, ⟨?_, ?_⟩, ht, ptrLog_keeps k h.log⟩
   · intro g hg
     rw [k.gl] at hg
     obtain ⟨ls, hl⟩ := w.labs g hg
@@ -94,10 +96,13 @@ theorem i_keeps {s s' : State} (h : I s) (k : Keeps s s') (hinv : Inv s') (ht : 
 /-- octets changed only inside the 12-octet header -/
 theorem keeps_header {s : State} (h : WInv s) (o : Bytes) (hsz : o.size = s.octets.size)
     (hpre : ∀ i, 12 ≤ i → o[i]? = s.octets[i]?) : Keeps s { s with octets := o } := by
-  refine ⟨?_, rfl, rfl, rfl, rfl, rfl, rfl, rfl⟩
-  intro c hc p ls hn
-  exact nameAt_frame (lo := 12) hn (fun _ hx => hx) (fun x hx => h.g12 x hx) (fun i hi _ => hpre i hi)
-    (Nat.le_refl _)
+  refine ⟨?_, rfl, rfl, rfl, rfl, rfl, rfl, rfl, ?_⟩
+  · intro c hc p ls hn
+    exact nameAt_frame (lo := 12) hn (fun _ hx => hx) (fun x hx => h.g12 x hx) (fun i hi _ => hpre i hi)
+      (Nat.le_refl _)
+  · intro g ⟨ls, hn, hb⟩
+    exact ⟨ls, nameAtC_frame (lo := 12) hn (fun _ hx => hx) (fun x hx => h.g12 x hx) (fun i hi _ => hpre i hi)
+      (Nat.le_refl _), hb⟩
 
 /-- nothing that names depend on changed -/
 theorem keeps_same {s s' : State} (ho : s'.octets = s.octets) (hc : s'.cursor = s.cursor)
@@ -105,10 +110,13 @@ theorem keeps_same {s s' : State} (ho : s'.octets = s.octets) (hc : s'.cursor = 
     (how : s'.mostRecentOwner = s.mostRecentOwner)
     (hrd : s'.mostRecentNameInRdata = s.mostRecentNameInRdata) (hgp : s'.gPtrs = s.gPtrs := by rfl) :
     Keeps s s' := by
-  refine ⟨?_, hc, hr, hg, hq, how, hrd, hgp⟩
-  intro c _ p ls hn
-  have : GL s' = GL s := by unfold GL; rw [hg]
-  rw [this, ho]; exact hn
+  have hG : GL s' = GL s := by unfold GL; rw [hg]
+  refine ⟨?_, hc, hr, hg, hq, how, hrd, hgp, ?_⟩
+  · intro c _ p ls hn
+    rw [hG, ho]; exact hn
+  · intro g ⟨ls, hn, hb⟩
+    refine ⟨ls, ?_, hb⟩
+    rw [hG, ho, hc]; exact hn
 
 /-- octets changed only inside the header, everything else that names depend on untouched -/
 theorem keeps_header' {s s' : State} (h : WInv s) (hpre : ∀ i, 12 ≤ i → s'.octets[i]? = s.octets[i]?)
@@ -116,12 +124,17 @@ theorem keeps_header' {s s' : State} (h : WInv s) (hpre : ∀ i, 12 ≤ i → s'
     (hq : s'.qname = s.qname) (how : s'.mostRecentOwner = s.mostRecentOwner)
     (hrd : s'.mostRecentNameInRdata = s.mostRecentNameInRdata) (hgp : s'.gPtrs = s.gPtrs := by rfl) :
     Keeps s s' := by
-  refine ⟨?_, hc, hr, hg, hq, how, hrd, hgp⟩
-  intro c _ p ls hn
-  have : GL s' = GL s := by unfold GL; rw [hg]
-  rw [this]
-  exact nameAt_frame (lo := 12) hn (fun _ hx => hx) (fun x hx => h.g12 x hx) (fun i hi _ => hpre i hi)
-    (Nat.le_refl _)
+  have hG : GL s' = GL s := by unfold GL; rw [hg]
+  refine ⟨?_, hc, hr, hg, hq, how, hrd, hgp, ?_⟩
+  · intro c _ p ls hn
+    rw [hG]
+    exact nameAt_frame (lo := 12) hn (fun _ hx => hx) (fun x hx => h.g12 x hx) (fun i hi _ => hpre i hi)
+      (Nat.le_refl _)
+  · intro g ⟨ls, hn, hb⟩
+    refine ⟨ls, ?_, hb⟩
+    rw [hG, hc]
+    exact nameAtC_frame (lo := 12) hn (fun _ hx => hx) (fun x hx => h.g12 x hx) (fun i hi _ => hpre i hi)
+      (Nat.le_refl _)
 
 end QV.Writer
 
@@ -351,12 +364,17 @@ theorem safe_setTsig (m : TsigMode) (rr : TsigRr) (s : State) (hI : I s)
 
 /-- a failed call leaves a state that is the same as far as names are concerned -/
 theorem keeps_of_same {s s' : State} (e : Same s s') : Keeps s s' := by
-  refine ⟨?_, e.cursor, e.rrStart, e.gLabels, e.qname, e.owner, e.inRdata, e.gPtrs⟩
-  intro c hc p ls hn
-  have : GL s' = GL s := by unfold GL; rw [e.gLabels]
-  rw [this]
-  exact nameAt_frame (lo := 0) hn (fun _ hx => hx) (fun _ _ => Nat.zero_le _)
-    (fun i _ hi => e.pre i (by omega)) (Nat.le_refl _)
+  have hG : GL s' = GL s := by unfold GL; rw [e.gLabels]
+  refine ⟨?_, e.cursor, e.rrStart, e.gLabels, e.qname, e.owner, e.inRdata, e.gPtrs, ?_⟩
+  · intro c hc p ls hn
+    rw [hG]
+    exact nameAt_frame (lo := 0) hn (fun _ hx => hx) (fun _ _ => Nat.zero_le _)
+      (fun i _ hi => e.pre i (by omega)) (Nat.le_refl _)
+  · intro g ⟨ls, hn, hb⟩
+    refine ⟨ls, ?_, hb⟩
+    rw [hG, e.cursor]
+    exact nameAtC_frame (lo := 0) hn (fun _ hx => hx) (fun _ _ => Nat.zero_le _)
+      (fun i _ hi => e.pre i hi) (Nat.le_refl _)
 
 theorem tsigOK_of_eq {s s' : State} (h : TsigOK s) (e : s'.tsig = s.tsig) : TsigOK s' := by
   intro ts hts; rw [e] at hts; exact h ts hts
@@ -416,7 +434,7 @@ theorem den_setCount (sec : RrSection) (n : Nat) (s : State) (p : Prior) (m : WN
   cases sec <;> exact Iff.rfl
 
 theorem winv_setCount (sec : RrSection) (n : Nat) {s : State} (h : WInv s) : WInv (setCount sec n s).2 := by
-  cases sec <;> exact ⟨h.c12, h.cur_av, h.av_size, h.g12, h.labs, h.qn, h.ow, h.rd⟩
+  cases sec <;> exact ⟨h.c12, h.cur_av, h.av_size, h.g12, h.labs, h.qn, h.ow, h.rd, h.clabs⟩
 
 theorem ptrLog_setCount (sec : RrSection) (n : Nat) {s : State} (h : PtrLogOK s) :
     PtrLogOK (setCount sec n s).2 := by
@@ -584,7 +602,7 @@ theorem addQuestionBody_spec (qn : WName) (qt qc : Nat) (s : State) (hw : WInv s
     | panic => exact absurd rfl hs.nopanic
     | err e => exact ⟨by simp, fun h => by cases h⟩
     | ok p =>
-      obtain ⟨hw2, hden, hq, ho, hr⟩ := hs.ok p rfl
+      obtain ⟨hw2, hden, hq, ho, hr, _, _⟩ := hs.ok p rfl
       simp only []
       have hqd : s2.qdcount = s.qdcount := hf.qd
       -- the state after the QNAME anchor is (possibly) set
@@ -601,7 +619,7 @@ theorem addQuestionBody_spec (qn : WName) (qt qc : Nat) (s : State) (hw : WInv s
         rw [← hs4]
         by_cases h0 : ({ s2 with gCtx := NameCtx.none } : State).qdcount = 0
         · rw [if_pos h0]
-          exact ⟨w.c12, w.cur_av, w.av_size, w.g12, w.labs, den_anchorOK hden, w.ow, w.rd⟩
+          exact ⟨w.c12, w.cur_av, w.av_size, w.g12, w.labs, den_anchorOK hden, w.ow, w.rd, w.clabs⟩
         · rw [if_neg h0]; exact w
       have hs4q : (s.qdcount = 0 → s4.qname = p) ∧ (s.qdcount ≠ 0 → s4.qname = s2.qname) := by
         rw [← hs4]
@@ -683,7 +701,7 @@ theorem addQuestion_full (qn : WName) (qt qc : Nat) (s : State) (hI : I s) (hwf 
           obtain ⟨hw3, hq0, hq1, hlg⟩ := hb2 rfl
           have hinv := hstep.1 hI.inv
           have hrr : s3.rrStart = s.rrStart := hfr.rrStart
-          refine ⟨by simp, ⟨hinv, ⟨hw3.c12, hw3.cur_av, hw3.av_size, hw3.g12, hw3.labs, hw3.qn, hw3.ow, hw3.rd⟩,
+          refine ⟨by simp, ⟨hinv, ⟨hw3.c12, hw3.cur_av, hw3.av_size, hw3.g12, hw3.labs, hw3.qn, hw3.ow, hw3.rd, hw3.clabs⟩,
             ⟨fun g hg _ => hw3.labs g hg, fun p hp => (hw3.qn p hp).2.2⟩,
             tsigOK_of_eq hI.tsig hfr.tsig, hlg hI.log⟩, fun p n hd => den_ext hfr hd, ?_⟩
           intro _ _ hqd q hq'
@@ -759,7 +777,7 @@ theorem finishCounts_spec (a b c d : Nat) (s : State) (hI : I s) :
 /-- raising `available` (undoing a reservation) keeps the name invariants -/
 theorem winv_raise {s : State} (h : WInv s) (k : Nat) (hk : s.available + k ≤ s.octets.size)
     (ts : Option Tsig) : WInv { s with available := s.available + k, tsig := ts } :=
-  ⟨h.c12, by have := h.cur_av; show s.cursor ≤ s.available + k; omega, hk, h.g12, h.labs, h.qn, h.ow, h.rd⟩
+  ⟨h.c12, by have := h.cur_av; show s.cursor ≤ s.available + k; omega, hk, h.g12, h.labs, h.qn, h.ow, h.rd, h.clabs⟩
 
 theorem finishOpt_spec (s : State) (hw : WInv s) (hl : PtrLogOK s) (k : Nat)
     (hroom : ∀ e, s.edns = some e → s.available + Gen.OPT_RECORD_SIZE + k ≤ s.octets.size)
@@ -932,7 +950,7 @@ theorem finish_ok (macFn : Tsig → List UInt8 → List UInt8) (hmac : MacLenOK 
 
 theorem i_hv (s : State) (v : Option HV) (h : I s) : I { s with hv := v } :=
   ⟨inv_hv h.inv v, ⟨h.winv.c12, h.winv.cur_av, h.winv.av_size, h.winv.g12, h.winv.labs, h.winv.qn,
-    h.winv.ow, h.winv.rd⟩, ⟨h.qinv.labs, h.qinv.qn⟩, h.tsig, h.log⟩
+    h.winv.ow, h.winv.rd, h.winv.clabs⟩, ⟨h.qinv.labs, h.qinv.qn⟩, h.tsig, h.log⟩
 
 theorem new_i (buf : Bytes) (limit : Nat) (s : State) (h : Writer.new buf limit = .ok s) : I s := by
   have hinv := new_inv buf limit s h
@@ -942,13 +960,14 @@ theorem new_i (buf : Bytes) (limit : Nat) (s : State) (h : Writer.new buf limit 
   · cases h
   · have hs := Out.ok.inj h
     subst hs
-    refine ⟨hinv, ⟨hinv.hdr, hinv.cur_av, Nat.le_trans hinv.av_lim hinv.lim_size, ?_, ?_, ?_, ?_, ?_⟩,
+    refine ⟨hinv, ⟨hinv.hdr, hinv.cur_av, Nat.le_trans hinv.av_lim hinv.lim_size, ?_, ?_, ?_, ?_, ?_, ?_⟩,
       ⟨?_, ?_⟩, ?_, fun x hx => by cases hx⟩
     · intro g hg; cases hg
     · intro g hg; cases hg
     · intro p hp; cases hp
     · intro p hp; cases hp
     · intro p hp; cases hp
+    · intro g hg; cases hg
     · intro g hg; cases hg
     · intro p hp; cases hp
     · intro ts hts; cases hts
@@ -979,12 +998,17 @@ theorem clearRrs_i (s : State) (h : I s) : I (clearRrs s).2 := by
     obtain ⟨ls, hl, hlen⟩ := h.qinv.qn p hp
     exact ⟨ls, conv _ _ hl, hlen⟩
   refine ⟨hinv, ⟨h.inv.rr_lo, by show s.rrStart ≤ s.available; have := h.inv.cur_av; omega,
-    h.winv.av_size, ?_, hlabs, ?_, (fun p hp => by cases hp), (fun p hp => by cases hp)⟩, ⟨?_, hqn⟩, h.tsig, ?_⟩
+    h.winv.av_size, ?_, hlabs, ?_, (fun p hp => by cases hp), (fun p hp => by cases hp), ?_⟩, ⟨?_, hqn⟩, h.tsig, ?_⟩
   · intro g hg
     simp only [List.mem_filter] at hg
     exact h.winv.g12 g hg.1
   · intro p hp
     exact ⟨(h.winv.qn p hp).1, (h.winv.qn p hp).2.1, hqn p hp⟩
+  · intro g hg
+    obtain ⟨ls', hl'⟩ := hlabs g hg
+    simp only [List.mem_filter, decide_eq_true_eq] at hg
+    obtain ⟨ls, hc, hb⟩ := h.winv.clabs g hg.1
+    exact ⟨ls, nameAtC_shrink hc hl', hb⟩
   · intro g hg _
     exact hlabs g hg
   · intro x hx
